@@ -1,5 +1,38 @@
 // harness commands owned by the check of property C10 (see tools/props/C10.py)
-#[allow(unused_variables)]
+//
+// c10reuse <src> : runs the program like `run` with the allocation log of hook H1 on, then answers, besides the records of
+//                  `run`, one line `RU <allocations> <reused> <class_reused>`: how many managed allocations of the run were
+//                  placed at an address an EARLIER managed allocation of the same run had (the earlier box was reclaimed and
+//                  the system allocator handed the block out again), and how many of those were class objects.  Used only as
+//                  evidence that the "identity of a dead object reused" programs really meet address reuse in this build.
+use std::collections::HashSet;
+
+use yarel::memory::verif as gcv;
+
 pub fn dispatch(cmd: &str, args: &[&str], out: &mut Vec<String>) -> bool {
-    false
+    match cmd {
+        "c10reuse" => {
+            let src = crate::unhex_str(args[0]);
+            let mut vm = crate::new_vm();
+            gcv::set_logging(true);
+            gcv::take_alloc_log();
+            let r = yarel::vm::interpret(&mut vm, src, None);
+            crate::emit_result(out, &r);
+            let log = gcv::take_alloc_log();
+            gcv::set_logging(false);
+            let mut seen: HashSet<usize> = HashSet::new();
+            let (mut reused, mut class_reused) = (0usize, 0usize);
+            for rec in &log {
+                if !seen.insert(rec.addr) {
+                    reused += 1;
+                    if rec.kind.contains("ObjClass") {
+                        class_reused += 1;
+                    }
+                }
+            }
+            out.push(format!("RU {} {} {}", log.len(), reused, class_reused));
+            true
+        }
+        _ => false,
+    }
 }
